@@ -101,12 +101,16 @@ def run_case(kind, p):
     with warnings.catch_warnings():
         warnings.simplefilter("ignore")
         for nm, fn in (("process_frames_fast", cc.process_frames_fast), ("process_frames_full", cc.process_frames_full)):
+            # a two-frame stack (the same content moved by a few pixels first): the batch helpers reuse their buffers
+            stack = np.stack([np.roll(vals, (3, 5), axis=(0, 1)), vals])
             try:
-                ref = fn(pattern, vals[np.newaxis].astype(np.float64), peaks)
-                got = fn(pattern, vals[np.newaxis].astype(p["dtype"]), peaks)
+                ref = fn(pattern, stack.astype(np.float64), peaks)
+                got = fn(pattern, stack.astype(p["dtype"]), peaks)
             except Exception as e:
                 msgs.append(f"{nm} with {p['dtype']} frames raised {type(e).__name__}: {e}")
                 continue
+            ref = tuple(np.asarray(x).reshape((-1,) + np.asarray(x).shape[2:])[np.newaxis] for x in ref)
+            got = tuple(np.asarray(x).reshape((-1,) + np.asarray(x).shape[2:])[np.newaxis] for x in got)
             for onm, a, b in zip(("centres", "refineds", "heights", "elevations"), got, ref):
                 a, b = np.asarray(a[0], dtype=np.float64), np.asarray(b[0], dtype=np.float64)
                 if not np.isfinite(a).all():
